@@ -1028,7 +1028,7 @@ impl Tuple {
 
         // Write header
         let original_xmin = self.xmin();
-        let header = TupleHeader::new(old_version + 1, original_xmin, None);
+        let header = TupleHeader::new(old_version.wrapping_add(1), original_xmin, None);
         cursor = header.write_to(buffer, cursor);
 
         // Write null bitmap for new values
